@@ -187,8 +187,8 @@ for K in ("SPAKE2_A", "SPAKE2_B", "SPAKE2_Symmetric"):
 c = REG.contract("params._Params.__init__")
 c.params(self="obj:params._Params", group="obj:GroupSpec", M="bytes", N="bytes", S="bytes").returns("none").setup("fresh_self")
 c.requires("spec.ae_ok(group, M) and spec.ae_ok(group, N) and spec.ae_ok(group, S)", name="seeds-derive-elements")
-c.ensures("self.group is group", name="group", tags="C18 C01 C16")
-c.ensures("spec.view(self.M) == spec.ae(group, M) and spec.view(self.N) == spec.ae(group, N) and spec.view(self.S) == spec.ae(group, S)", name="derived-from-seeds", tags="C14 C03 C18")
-c.ensures("spec.same_obj(self.M._g, group) and spec.same_obj(self.N._g, group) and spec.same_obj(self.S._g, group)", name="elements-of-group", tags="C18 C01 C04")
+c.ensures("self.group is group", name="group", tags="C18 C01 C03 C04 C09 C16")
+c.ensures("spec.view(self.M) == spec.ae(group, M) and spec.view(self.N) == spec.ae(group, N) and spec.view(self.S) == spec.ae(group, S)", name="derived-from-seeds", tags="C14 C03 C18 C01")
+c.ensures("spec.same_obj(self.M._g, group) and spec.same_obj(self.N._g, group) and spec.same_obj(self.S._g, group)", name="elements-of-group", tags="C18 C01 C03 C04 C09")
 c.ensures("spec.insub(group, spec.view(self.M)) and spec.insub(group, spec.view(self.N)) and spec.insub(group, spec.view(self.S))", name="in-subgroup", tags="C18 C04")
 c.ensures("self.M_str == M and self.N_str == N and self.S_str == S", name="seeds-kept", tags="C18")
